@@ -58,10 +58,30 @@ var verifState struct {
 	wg       sync.WaitGroup
 	baseG    int
 	gen      int
+	baseGIDs map[uint64]bool
 	onSync   func()
 	inHook   bool
 	finished bool
 	doneCh   chan string
+}
+
+func verifStackGID(g []byte) uint64 {
+	f := bytes.Fields(g)
+	if len(f) < 2 {
+		return 0
+	}
+	id, _ := strconv.ParseUint(string(f[1]), 10, 64)
+	return id
+}
+
+func verifAllGIDs() map[uint64]bool {
+	buf := make([]byte, 1<<20)
+	buf = buf[:runtime.Stack(buf, true)]
+	out := map[uint64]bool{}
+	for _, g := range bytes.Split(buf, []byte("\n\n")) {
+		out[verifStackGID(g)] = true
+	}
+	return out
 }
 
 func verifGID() uint64 {
@@ -284,6 +304,9 @@ func verifLiveGoroutines() int {
 		buf = buf[:runtime.Stack(buf, true)]
 		n = 0
 		for _, g := range bytes.Split(buf, []byte("\n\n")) {
+			if verifState.baseGIDs[verifStackGID(g)] {
+				continue // left over from an earlier replay in this process
+			}
 			i := bytes.Index(g, []byte("created by github.com/jhump/grpctunnel."))
 			if i < 0 {
 				continue
@@ -390,6 +413,7 @@ func verifReplayOne(path string, funcs map[string]func()) {
 	verifState.diverged = ""
 	verifState.observed = nil
 	verifState.gen++
+	verifState.baseGIDs = verifAllGIDs()
 	verifState.onSync = nil
 	verifState.inHook = false
 	verifState.finished = false
